@@ -294,6 +294,16 @@ func (s *mercScn) faulty(g *G) any {
 			o["blocks"] = []any{b, mercBlockJ(s.top+1, mercChainHash(s.top+1, 0x34), 7), b}
 		case 2: // duplicate hash
 			o["blocks"] = []any{mercBlockJ(s.top, mercChainHash(s.top, 0), 1), mercBlockJ(s.top-1, mercChainHash(s.top, 0), 1)}
+			if g.R.Intn(2) == 0 {
+				// the same fabricated block twice, NOT next to each other (one observer must never cast two votes)
+				fake := mercBlockJ(s.top+5, mercChainHash(s.top+5, 0x77), 9999)
+				fill := func(d int64) J { return mercBlockJ(s.top+d, mercChainHash(s.top+d, 0x78), uint64(s.top+d)) }
+				if g.R.Intn(2) == 0 {
+					o["blocks"] = []any{fake, fill(2), fake}
+				} else {
+					o["blocks"] = []any{fill(1), fake, fill(3), fake}
+				}
+			}
 		case 3: // wrong hash length
 			o["blocks"] = []any{mercBlockJ(s.top, make([]byte, 31), 1)}
 		case 4: // negative number
@@ -651,6 +661,11 @@ func genMercHistories(g *G) {
 				}
 			} else {
 				s.mft = int64(s.T) - int64(1+g.R.Intn(50))
+				if g.R.Intn(8) == 0 {
+					// the agreed max-finalized timestamp is at or ahead of the observers' clocks: without a previous
+					// report the window would be empty, and the plugin must decline quietly
+					s.mft = int64(s.T) + int64(g.R.Intn(6))
+				}
 				switch g.R.Intn(3) {
 				case 0:
 					prev = nil
@@ -787,6 +802,26 @@ func genMercHistories(g *G) {
 		s.split = false
 		g.Emit(J{"op": "mercury.history", "v": v, "cfg": s.cfg(), "codec": s.codec, "prev": nil, "rounds": rounds, "honest": labels},
 			fmt.Sprintf("v%d", v), "history", "disagreement-then-bootstrap")
+	}
+	// directed: bootstrap rounds in which the agreed max-finalized value is at / ahead of the current end
+	// (decline without error), then the clocks catch up
+	for v := 1; v <= 4; v++ {
+		s := mercBase(g, v)
+		if v == 1 {
+			s.mft = s.top + 3
+		} else {
+			s.mft = int64(s.T) + 3
+		}
+		var rounds, labels []any
+		for r := 0; r < 6; r++ {
+			aos, hidx := s.round(g)
+			rounds = append(rounds, aos)
+			labels = append(labels, hidx)
+			s.T = mercSatAdd(s.T, 2)
+			s.top += 2
+		}
+		g.Emit(J{"op": "mercury.history", "v": v, "cfg": s.cfg(), "codec": s.codec, "prev": nil, "rounds": rounds, "honest": labels},
+			fmt.Sprintf("v%d", v), "history", "bootstrap-ahead-of-clock")
 	}
 	// directed v1: chain advancing one block per round, stalling, bootstrap from -1
 	for _, m := range []int64{-1, 990} {
